@@ -858,3 +858,45 @@ package orda
 //@ func (*document).patchEach
 //@   bounded docpatch the edit script comes from a third-party diff library (jsondiff) whose output no contract states
 //@   props C19
+
+// ---------------------------------------------------------------------------------------
+// Map: the dispatchers between operations and the snapshot (C01, C02, C03). An operation reaches the key it names,
+// under its OWN identifier's time, through the function of its own kind; anything else is refused.
+// ---------------------------------------------------------------------------------------
+//@ pred msnap(m *ordaMap) = m.SnapshotDatatype.Snapshot.(as *mapSnapshot)
+//@ pred mapAPI(m *ordaMap) = m.datatype != nil && m.SnapshotDatatype != nil && m.SnapshotDatatype.Snapshot != nil && m.SnapshotDatatype.Snapshot.(*mapSnapshot) && mapWF(msnap(m)) && mapSized(msnap(m)) && m.SnapshotDatatype.BaseDatatype != nil
+//@ pred idValid(id *model.OperationID) = id != nil && id.Lamport < 9223372036854775808 && id.Era < 2147483648
+//@ pred olderThanID(t *model.Timestamp, id *model.OperationID) = t.Era < id.Era || (t.Era == id.Era && (t.Lamport < id.Lamport || (t.Lamport == id.Lamport && strlt(t.CUID, id.CUID))))
+//@ pred stampedBy(t *model.Timestamp, id *model.OperationID) = t != nil && t.Era == id.Era && t.Lamport == id.Lamport && t.CUID == id.CUID
+//@ pred putOf(op interface{}) = op.(as *operations.PutOperation)
+//@ pred putBody(op interface{}) = op.(as *operations.PutOperation).baseOperation.Body.(as *operations.PutBody)
+//@ pred remOf(op interface{}) = op.(as *operations.RemoveOperation)
+//@ pred remBody(op interface{}) = op.(as *operations.RemoveOperation).baseOperation.Body.(as *operations.RemoveBody)
+
+//@ func (*ordaMap).ExecuteRemote
+//@   mode math
+//@   props C01 C02
+//@   requires mapAPI(its) && op != nil
+//@   requires[put-shape] op.(*operations.PutOperation) ==> putOf(op).baseOperation.Body != nil && putOf(op).baseOperation.Body.(*operations.PutBody) && idValid(putOf(op).baseOperation.ID) && putBody(op).Value != nil
+//@   requires[remove-shape] op.(*operations.RemoveOperation) ==> remOf(op).baseOperation.Body != nil && remOf(op).baseOperation.Body.(*operations.RemoveBody) && idValid(remOf(op).baseOperation.ID)
+//@   requires[snapshot-shape] op.(*operations.SnapshotOperation) ==> op.(as *operations.SnapshotOperation).baseOperation.Body != nil && op.(as *operations.SnapshotOperation).baseOperation.Body.([]byte)
+//@   ensures[a-newer-put-wins-its-key-under-its-own-time] op.(*operations.PutOperation) ==> result1 == nil && putBody(op).Key in msnap(its).Map && ((!old(putBody(op).Key in msnap(its).Map) || olderThanID(old(tsOf(msnap(its).Map[putBody(op).Key])), putOf(op).baseOperation.ID)) ==> tnAs(msnap(its).Map[putBody(op).Key]).V == putBody(op).Value && stampedBy(tnAs(msnap(its).Map[putBody(op).Key]).T, putOf(op).baseOperation.ID))
+//@   ensures[an-older-put-changes-nothing] op.(*operations.PutOperation) && old(putBody(op).Key in msnap(its).Map) && !olderThanID(old(tsOf(msnap(its).Map[putBody(op).Key])), putOf(op).baseOperation.ID) ==> msnap(its).Map[putBody(op).Key] == old(msnap(its).Map[putBody(op).Key]) && tnAs(msnap(its).Map[putBody(op).Key]).V == old(tnAs(msnap(its).Map[putBody(op).Key]).V)
+//@   ensures[a-put-leaves-the-other-keys] op.(*operations.PutOperation) ==> forall k string :: k != putBody(op).Key ==> (k in msnap(its).Map) == old(k in msnap(its).Map) && msnap(its).Map[k] == old(msnap(its).Map[k])
+//@   ensures[a-remove-tombstones-its-key-when-newer] op.(*operations.RemoveOperation) && old(remBody(op).Key in msnap(its).Map) && olderThanID(old(tsOf(msnap(its).Map[remBody(op).Key])), remOf(op).baseOperation.ID) ==> tnAs(msnap(its).Map[remBody(op).Key]).V == nil && stampedBy(tnAs(msnap(its).Map[remBody(op).Key]).T, remOf(op).baseOperation.ID)
+//@   ensures[an-older-remove-changes-nothing] op.(*operations.RemoveOperation) && old(remBody(op).Key in msnap(its).Map) && !olderThanID(old(tsOf(msnap(its).Map[remBody(op).Key])), remOf(op).baseOperation.ID) ==> tnAs(msnap(its).Map[remBody(op).Key]).V == old(tnAs(msnap(its).Map[remBody(op).Key]).V) && tnAs(msnap(its).Map[remBody(op).Key]).T == old(tnAs(msnap(its).Map[remBody(op).Key]).T)
+//@   ensures[another-kind-of-operation-is-refused] !op.(*operations.PutOperation) && !op.(*operations.RemoveOperation) && !op.(*operations.SnapshotOperation) ==> result1 != nil
+//@   modifies *
+
+//@ func (*ordaMap).ExecuteLocal
+//@   mode math
+//@   props C01 C02 C03
+//@   requires mapAPI(its) && op != nil
+//@   requires[put-shape] op.(*operations.PutOperation) ==> putOf(op).baseOperation.Body != nil && putOf(op).baseOperation.Body.(*operations.PutBody) && idValid(putOf(op).baseOperation.ID) && putBody(op).Value != nil
+//@   requires[remove-shape] op.(*operations.RemoveOperation) ==> remOf(op).baseOperation.Body != nil && remOf(op).baseOperation.Body.(*operations.RemoveBody) && idValid(remOf(op).baseOperation.ID)
+//@   ensures[a-newer-put-wins-its-key-under-its-own-time] op.(*operations.PutOperation) ==> result1 == nil && putBody(op).Key in msnap(its).Map && ((!old(putBody(op).Key in msnap(its).Map) || olderThanID(old(tsOf(msnap(its).Map[putBody(op).Key])), putOf(op).baseOperation.ID)) ==> tnAs(msnap(its).Map[putBody(op).Key]).V == putBody(op).Value && stampedBy(tnAs(msnap(its).Map[putBody(op).Key]).T, putOf(op).baseOperation.ID))
+//@   ensures[a-put-leaves-the-other-keys] op.(*operations.PutOperation) ==> forall k string :: k != putBody(op).Key ==> (k in msnap(its).Map) == old(k in msnap(its).Map) && msnap(its).Map[k] == old(msnap(its).Map[k])
+//@   ensures[a-remove-of-a-live-key-tombstones-it] op.(*operations.RemoveOperation) && old(live(msnap(its), remBody(op).Key)) && olderThanID(old(tsOf(msnap(its).Map[remBody(op).Key])), remOf(op).baseOperation.ID) ==> result1 == nil && tnAs(msnap(its).Map[remBody(op).Key]).V == nil && stampedBy(tnAs(msnap(its).Map[remBody(op).Key]).T, remOf(op).baseOperation.ID)
+//@   ensures[a-remove-of-a-missing-key-is-refused-and-changes-nothing] op.(*operations.RemoveOperation) && !old(live(msnap(its), remBody(op).Key)) ==> result1 != nil && msnap(its).Size == old(msnap(its).Size)
+//@   ensures[another-kind-of-operation-is-refused] !op.(*operations.PutOperation) && !op.(*operations.RemoveOperation) ==> result1 != nil
+//@   modifies *
